@@ -862,9 +862,9 @@ End ThreeFacts.
 Definition cx_cfg : config := mkCfg 4 3 [3] (fun _ => false).
 Definition cx_gen (pid : nat) : bool := pid <? 1000.
 Definition cx_rootof (pid : nat) : nat := pid mod 1000.
-Definition cx_d : PS.duty := (5, 1).
-Definition cx_k : PS.key := (cx_d, 7, 0).
-Definition cx_e (sh r pid : nat) : PS.entry := PS.EGood 7 0 (PS.P sh r pid).
+Definition cx_d : PS.duty := (0, 1).   (* small numbers: kenc is Cantor pairing on unary nat *)
+Definition cx_k : PS.key := (cx_d, 0, 0).
+Definition cx_e (sh r pid : nat) : PS.entry := PS.EGood 0 0 (PS.P sh r pid).
 Definition cx_trace : list clabel :=
   [ CStore KSign 0 1 cx_d [cx_e 0 5 5] PS.ENone None true;
     CStore KSign 1 1 cx_d [cx_e 1 5 5] PS.ENone None true;
@@ -872,12 +872,12 @@ Definition cx_trace : list clabel :=
     CStore KInject 0 3 cx_d [cx_e 3 6 6] PS.ENone None false;          (* the Byzantine share signs another root *)
     CStore KInject 0 4 cx_d [cx_e 3 5 5] PS.EMismatch None false;      (* and then this one: rejected *)
     CStore KInject 0 5 cx_d [cx_e 2 5 1005] PS.ENone
-           (Some [(7, 0, [PS.P 0 5 5; PS.P 1 5 5; PS.P 2 5 1005])]) false; (* garbage under share 2 arrives first: threshold BY COUNT at node 0 *)
+           (Some [(0, 0, [PS.P 0 5 5; PS.P 1 5 5; PS.P 2 5 1005])]) false; (* garbage under share 2 arrives first: threshold BY COUNT at node 0 *)
     CStore KSign 2 1 cx_d [cx_e 2 5 5] PS.ENone None true;
     CStore KDeliver 0 6 cx_d [cx_e 2 5 5] PS.EMismatch None false;     (* so the genuine partial of share 2 is refused *)
     CStore KDeliver 1 2 cx_d [cx_e 0 5 5] PS.ENone None false;
     CStore KDeliver 1 3 cx_d [cx_e 2 5 5] PS.ENone
-           (Some [(7, 0, [PS.P 1 5 5; PS.P 0 5 5; PS.P 2 5 5])]) false; (* threshold at node 1 *)
+           (Some [(0, 0, [PS.P 1 5 5; PS.P 0 5 5; PS.P 2 5 5])]) false; (* threshold at node 1 *)
     CAggregate 1 cx_k 5 [1; 0; 2] ].
 
 Definition cx_ok (ls : list clabel) : bool :=
@@ -899,3 +899,116 @@ Example cx_garbage_not_published :
   sa_publishes 3 (kenc cx_k) [mkP 0 5 0; mkP 1 5 0; mkP 2 5 1006] = false /\
   sa_publishes 3 (kenc cx_k) [mkP 0 5 0; mkP 1 5 0; mkP 2 5 0] = true.
 Proof. repeat split; vm_compute; reflexivity. Qed.
+
+(* ---------------------------------------------------------------------------------------------
+   Part D: DutyDB (C06) and consensus (C02) in Pipeline's vocabulary.
+   The coupling predicates below are exactly what the wiring obligation and validator-client honesty
+   say: [decide_coupled] = what reaches DutyDB.Store (LDecide) is what the node's consensus instance
+   decided (DutyDB.Store is fed ONLY by Consensus.Subscribe: C01_wiring), [vroot] reads the root
+   of the datum for key k off the decided value; [vc_follows] = an honest validator client signs,
+   for a consensus duty, only content its node's duty store answered. *)
+From Charon Require Stores.DutyDB Stores.DutyDBFacts Qbft.Net Qbft.Agreement Qbft.CmpInv Qbft.AgreementCmp.
+Module DD := Charon.Stores.DutyDB.
+Module DF := Charon.Stores.DutyDBFacts.
+Module QN := Charon.Qbft.Net.
+Module QA := Charon.Qbft.Agreement.
+Module QC := Charon.Qbft.CmpInv.
+Module QAC := Charon.Qbft.AgreementCmp.
+
+Lemma in_two_split : forall (A : Type) (a b : A) l, In a l -> In b l ->
+  a = b \/ (exists p m q, l = p ++ a :: m ++ b :: q) \/ (exists p m q, l = p ++ b :: m ++ a :: q).
+Proof.
+  induction l as [|x l IH]; simpl; intros Ha Hb; [contradiction|].
+  destruct Ha as [Ea|Ha], Hb as [Eb|Hb].
+  - left. congruence.
+  - subst x. apply in_split in Hb. destruct Hb as [m [q E]]. right. left. exists [], m, q. subst l. reflexivity.
+  - subst x. apply in_split in Ha. destruct Ha as [m [q E]]. right. right. exists [], m, q. subst l. reflexivity.
+  - destruct (IH Ha Hb) as [E|[[p [m [q E]]]|[p [m [q E]]]]]; auto.
+    + right. left. exists (x :: p), m, q. subst l. reflexivity.
+    + right. right. exists (x :: p), m, q. subst l. reflexivity.
+Qed.
+
+(* C06_answers_unique without the order: all answers a duty store ever gives for one key carry the
+   same content. *)
+Theorem dutydb_answers_one_content : forall dls ds, DD.run DD.init dls = Some ds -> DD.disciplined dls = true ->
+  forall q1 q2 k c1 c2, In (DD.LAnswer q1 k c1) dls -> In (DD.LAnswer q2 k c2) dls -> c1 = c2.
+Proof.
+  intros dls ds H D q1 q2 k c1 c2 H1 H2.
+  pose proof (DF.answers_unique dls (DF.run_monitor dls ds H) D) as U.
+  destruct (in_two_split _ _ _ _ H1 H2) as [E|[[p [m [q E]]]|[p [m [q E]]]]].
+  - inversion E. reflexivity.
+  - eapply U; eauto.
+  - symmetry. eapply U; eauto.
+Qed.
+
+Definition vc_follows (ckey : key -> bool) (ls : list label) (nd : node) (dls : list DD.label)
+  (dkey : key -> DD.key) (croot : N -> root) : Prop :=
+  forall b o k r, In (LSign nd b o) ls -> In (k, r) b -> ckey k = true ->
+    exists q cnt, In (DD.LAnswer q (dkey k) cnt) dls /\ croot cnt = r.
+
+(* ... hence a validator client that signs what it is served signs at most one root per key. *)
+Theorem vc_one_root_per_key : forall ckey ls nd dls ds dkey croot,
+  DD.run DD.init dls = Some ds -> DD.disciplined dls = true -> vc_follows ckey ls nd dls dkey croot ->
+  forall b o b' o' k r r', ckey k = true ->
+    In (LSign nd b o) ls -> In (k, r) b -> In (LSign nd b' o') ls -> In (k, r') b' -> r = r'.
+Proof.
+  intros ckey ls nd dls ds dkey croot H D F b o b' o' k r r' Hk H1 H2 H3 H4.
+  destruct (F _ _ _ _ H1 H2 Hk) as [q [cnt [A E]]]. destruct (F _ _ _ _ H3 H4 Hk) as [q' [cnt' [A' E']]].
+  rewrite <- E, <- E'. f_equal. eapply dutydb_answers_one_content; eauto.
+Qed.
+
+Definition decide_coupled (ls : list label) (k : key) (tr : list (nat * Charon.Qbft.Model.label)) (vroot : N -> root) : Prop :=
+  forall nd r ok, In (LDecide nd k r ok) ls ->
+    exists v rnd, In (nd, v, rnd) (QN.trace_decides tr) /\ vroot v = r.
+
+(* C02 in Pipeline's vocabulary: all LDecide labels of one consensus duty carry one root. *)
+Theorem consensus_one_decided_root : forall cq nt tr ls k vroot,
+  QN.wf_cfg cq -> QN.nreach cq nt tr -> QN.trace_nofail tr -> decide_coupled ls k tr vroot ->
+  forall nd nd' r r' ok ok', In (LDecide nd k r ok) ls -> In (LDecide nd' k r' ok') ls -> r = r'.
+Proof.
+  intros cq nt tr ls k vroot W R NF Cp nd nd' r r' ok ok' H1 H2.
+  destruct (Cp _ _ _ H1) as [v [rn [D1 E1]]]. destruct (Cp _ _ _ H2) as [v' [rn' [D2 E2]]].
+  rewrite <- E1, <- E2. f_equal. eapply QA.agreement_default; eauto.
+Qed.
+
+(* the same with compare failures (feature chain_split_halt), from C02_cmp_agreement *)
+Theorem consensus_one_decided_root_cmp : forall cf cq nt tr ls k vroot,
+  QN.wf_cfg cq -> QN.nreach cq nt tr -> QC.trace_cmp_fun cf tr -> decide_coupled ls k tr vroot ->
+  forall nd nd' r r' ok ok', In (LDecide nd k r ok) ls -> In (LDecide nd' k r' ok') ls -> r = r'.
+Proof.
+  intros cf cq nt tr ls k vroot W R NF Cp nd nd' r r' ok ok' H1 H2.
+  destruct (Cp _ _ _ H1) as [v [rn [D1 E1]]]. destruct (Cp _ _ _ H2) as [v' [rn' [D2 E2]]].
+  rewrite <- E1, <- E2. f_equal. eapply QAC.agreement_cmp; eauto.
+Qed.
+
+(* The companion with its two hypotheses discharged by the consensus theorem: given an execution of
+   the QBFT network model coupled to the decisions of the trace, every root an honest validator
+   client signs for the consensus duty k is the decided root. *)
+Theorem composed_sign_same : forall c ls s k cq nt tr vroot nd0 r0,
+  run c init ls = Some s -> c_ckey c k = true ->
+  QN.wf_cfg cq -> QN.nreach cq nt tr -> QN.trace_nofail tr -> decide_coupled ls k tr vroot ->
+  In (LDecide nd0 k r0 true) ls ->
+  forall nd b o r, In (LSign nd b o) ls -> In (k, r) b -> r = r0.
+Proof.
+  intros c ls s k cq nt tr vroot nd0 r0 H Hk W R NF Cp D nd b o r Hs Hb.
+  eapply (honest_sign_same c ls s k nd0 r0 H Hk); eauto.
+  - intros n1 n2 x y _ A B. eapply consensus_one_decided_root; eauto.
+  - intros n1 x y A B. eapply consensus_one_decided_root; eauto.
+Qed.
+
+(* for the composed cluster (ParSigDB + SigAgg inside), through the refinement *)
+Theorem composed_cluster_sign_same : forall c gen rootof cls cs k cq nt tr vroot nd0 r0,
+  crun c gen rootof cinit cls = Some cs -> c_ckey c (kenc k) = true ->
+  QN.wf_cfg cq -> QN.nreach cq nt tr -> QN.trace_nofail tr ->
+  decide_coupled (flat_map (lmap gen) cls) (kenc k) tr vroot ->
+  In (CDecide nd0 k r0 true) cls ->
+  forall nd cid d es er out il e, In (CStore KSign nd cid d es er out il) cls -> In e es ->
+    fst (kr_of gen d e) = kenc k -> snd (kr_of gen d e) = r0.
+Proof.
+  intros c gen rootof cls cs k cq nt tr vroot nd0 r0 H Hk W R NF Cp D nd cid d es er out il e Hs He Ek.
+  destruct (composed_refines c gen rootof cls cs H) as [ps [Hr _]].
+  eapply (composed_sign_same c _ ps (kenc k) cq nt tr vroot nd0 r0 Hr Hk W R NF Cp).
+  - apply in_flat_map. exists (CDecide nd0 k r0 true). simpl. auto.
+  - apply in_flat_map. exists (CStore KSign nd cid d es er out il). split; [exact Hs|]. simpl. left. reflexivity.
+  - apply in_map_iff. exists e. split; auto. rewrite <- Ek. destruct (kr_of gen d e); reflexivity.
+Qed.
